@@ -45,6 +45,7 @@ void    vs_soft_fail(const char *clause, const char *fmt, ...)
 void    vs_nontrivial(void);
 void    vs_case(void); // one enumerated case inside a batched execution
 extern int vs_atomic_points; // nni_atomic RMW are scheduling points
+extern int vs_alloc_points;  // nni_alloc/nni_zalloc/nni_free are scheduling points
 extern int vs_unlock_points; // 1: an unlock that enables a blocked thread is a scheduling point; 2 (default): every unlock is
 extern int vs_io_points;     // wrapped I/O calls are IO choice points
 extern int vs_io_maxclamp;   // clamp alternatives 1..maxclamp (and total-1)
